@@ -26,7 +26,6 @@ TRUSTED_BASE = [
 ]
 ASSUMPTIONS = ["group codes > 65535 and Python objects of the wrong type for a class are outside the quantifier"]
 OPEN = [
-    "whole binary file round trip (composition of bin_tag_roundtrip over tag lists) is covered by correspondence/oracle, not by a theorem",
     "JSON line codec is oracle-only",
 ]
 
